@@ -138,7 +138,7 @@ func meaningKeys(j *ast.Journal) []string {
 				fmt.Fprintf(&sb, " cost(total=%v %s)", p.Cost.IsTotal, amountKey(&p.Cost.Amount))
 			}
 			if p.BalanceAssertion != nil {
-				fmt.Fprintf(&sb, " assert(strict=%v %s)", p.BalanceAssertion.IsStrict, amountKey(&p.BalanceAssertion.Amount))
+				fmt.Fprintf(&sb, " assert(strict=%v inclusive=%v %s)", p.BalanceAssertion.IsStrict, p.BalanceAssertion.IsInclusive, amountKey(&p.BalanceAssertion.Amount))
 			}
 			fmt.Fprintf(&sb, " comment%q[%s]", strings.TrimSpace(p.Comment), tagsKey(p.Tags))
 		}
